@@ -138,6 +138,8 @@ def run(ctx):
     # ---- the same search loop on BINARY64 score tables of the real built-in scorers (Model/Generic.v at Model/GenericF.v), bit for bit ----
     from harness import floatstreams
     floatstreams.mw_float_stream(ctx, ctx.n(45, 300))
+    # the DEFAULT configuration on series of realistic length and width, decided by the property-level twin of the model
+    floatstreams.mw_default_scale_stream(ctx, ctx.n(3, 20))
 
     from harness.variants import variants_stream
     from skchange.change_detectors import MovingWindow as _MW
